@@ -214,7 +214,7 @@ def _expand(seq, alpha, hook=None):
 
 def _shard(args):
     prefixes, depth, alpha, which, exe, hook = args
-    lines, traces, seqs, cnts = [], [], [], []
+    lines, traces, seqs, cnts, _mevents = [], [], [], [], []
     nmon, mon_first = 0, None
     stack = [list(p) for p in prefixes]
     while stack:
@@ -226,11 +226,14 @@ def _shard(args):
             case, counts = enc_icase(im.mevents)
             lines.append(vlib.encode_line(case))
             cnts.append(counts if im.order_ok else None)
+            _mevents.append(None if im.order_ok else im.mevents)
             g = tree_monitor(im, which[0])
             b = [g] if g else []
         else:
             lines.append(vlib.encode_line(D.enc_case(seq)))
             b = D.monitor(recs, which)
+        if not hook:
+            _mevents.append(None)
         traces.append(vlib.encode_line(D.enc_trace(recs)))
         seqs.append(seq)
         if b:
@@ -244,10 +247,16 @@ def _shard(args):
     if p.returncode:
         return {"error": p.stderr.decode()[-500:]}
     out = p.stdout.decode().split("\n")
-    ndiff, diff_first = 0, None
+    ndiff, diff_first, nskip, nskipdiff = 0, None, 0, 0
     for i, t in enumerate(traces):
         if hook:
             if cnts[i] is None:
+                # user code ran inside a close() loop whose order of failing cannot be told to be the model's: the
+                # difference, if any, is counted and not reported (as in tree_part)
+                nskip += 1
+                _c, counts_i = enc_icase(_mevents[i])
+                if not (i < len(out) and merge_canon([int(x) for x in out[i].split()], counts_i) == split_trace([int(x) for x in t.split()])):
+                    nskipdiff += 1
                 continue
             same = i < len(out) and merge_canon([int(x) for x in out[i].split()], cnts[i]) == split_trace([int(x) for x in t.split()])
         else:
@@ -259,7 +268,8 @@ def _shard(args):
     k = max(1, len(lines) // 3)
     pairs = [([int(x) for x in lines[i].split()], [int(x) for x in out[i].split()]) for i in range(0, len(lines), k) if i < len(out)][:3]
     return {"n": len(lines), "events": sum(len(s) for s in seqs), "nmon": nmon, "mon_first": mon_first, "ndiff": ndiff,
-            "diff_first": diff_first, "sample": (seqs[len(seqs) // 2], traces[len(seqs) // 2]), "pairs": pairs}
+            "diff_first": diff_first, "sample": (seqs[len(seqs) // 2], traces[len(seqs) // 2]), "pairs": pairs,
+            "nskip": nskip, "nskipdiff": nskipdiff}
 
 
 def exhaustive(ck, depth, kind, which, tied, rnd, procs=16, split_depth=3):
@@ -293,6 +303,9 @@ def exhaustive(ck, depth, kind, which, tied, rnd, procs=16, split_depth=3):
             raise vlib.CheckAbort("model runner failed in exhaustive shard: " + r["error"])
         st["cases"] += r["n"]
         st["differences"] += r["ndiff"]
+        if hook:
+            st["close_order_dependent_cases"] = st.get("close_order_dependent_cases", 0) + r.get("nskip", 0)
+            st["close_order_dependent_differences_not_reported"] = st.get("close_order_dependent_differences_not_reported", 0) + r.get("nskipdiff", 0)
         ck.cov["evaluations"] += r["n"]
         ck.hist("exhaustive_sequences_" + kind, r["n"])
         ck.hist("exhaustive_events_" + kind, r["events"])
